@@ -153,5 +153,5 @@ def confirm(o, ctx):
         o.cex = dict(o.cex or {}, native=j["violations"][:3])
         o.detail += "; replayed natively: %s" % json.dumps(j["violations"][0])[:300]
     else:
-        o.verdict = "inconclusive"
-        o.detail += "; the native lock scenarios (%d) show no processed locked file" % j.get("runs", 0)
+        # left unconfirmed: the report's lock battery (exclusive, shared and range locks on a group of five) may still confirm it
+        o.detail += "; the native range-lock scenarios (%d) show no processed locked file" % j.get("runs", 0)
